@@ -328,6 +328,34 @@ def extra_oracles(rng, tier):
         n += 1
         if got != want:
             out.append(Violation("c18-nego", {"items": items}, "rendered %r parses to %r" % (text, got)))
+    # HTTP dates are GMT whatever zone the process runs in: the round trips under other local zones (POSIX TZ strings,
+    # no zone database needed), around the epoch, a leap day, a daylight-saving gap, 2038 and the last second of 9999
+    import os
+    import time
+    old_tz = os.environ.get("TZ")
+    try:
+        for tz in ("UTC", "CET-1CEST,M3.5.0,M10.5.0/3", "EST5EDT,M3.2.0,M11.1.0", "<+0530>-5:30", "<-12>12"):
+            os.environ["TZ"] = tz
+            time.tzset()
+            for ts in (0, 1, 86399, 951782400, 1711846800 + 1800, 1729992600, 2 ** 31 + 5, 4102444800, 253402300799):
+                n += 1
+                try:
+                    text = H.time_to_http(ts)
+                    back = H.http_to_time(text)
+                    again = H.datetime_to_http(H.http_to_datetime(text))
+                except Exception as err:
+                    out.append(Violation("c18-date-zone", {"tz": tz, "ts": ts}, "raised %r under TZ=%s" % (err, tz)))
+                    continue
+                if back != ts or again != text:
+                    out.append(Violation("c18-date-zone", {"tz": tz, "ts": ts},
+                                         "under TZ=%s: time_to_http(%d) = %r parses back to %r and is rendered again as %r"
+                                         % (tz, ts, text, back, again)))
+    finally:
+        if old_tz is None:
+            os.environ.pop("TZ", None)
+        else:
+            os.environ["TZ"] = old_tz
+        time.tzset()
     return out, {"evaluations": n, "distinct_nontrivial": n}
 
 
